@@ -131,9 +131,21 @@ def env():
     return _ENV
 
 
-def config_prefs(cfg):
+def config_prefs(cfg, check="All"):
     lang, style, code = CONFIGS[cfg]
-    return [["pref", "TTS", "none"], ["pref", "Language", lang], ["pref", "SpeechStyle", style], ["pref", "BrailleCode", code], ["pref", "CheckRuleFiles", "All"]]
+    return [["pref", "TTS", "none"], ["pref", "Language", lang], ["pref", "SpeechStyle", style], ["pref", "BrailleCode", code], ["pref", "CheckRuleFiles", check]]
+
+
+def parse_order(order):
+    """order = <when>[@<recovery>]; when in after-load, before-load, after-load-nocall, before-load-nocall, other:<cfgB>;
+    recovery: '' = file checking + re-pointing (the strongest repair), 'all' = file checking only (nothing re-pointed),
+    'repoint' = re-pointing only (CheckRuleFiles left at its default, Prefs)"""
+    when, _, rec = order.partition("@")
+    other = None
+    if when.startswith("other:"):
+        other = when[6:]
+        when = "other"
+    return when, rec, other
 
 
 def scenario_ops(e, cfg, rel, kind, payload, order):
@@ -141,6 +153,8 @@ def scenario_ops(e, cfg, rel, kind, payload, order):
     D = e.dir
     F = os.path.join(D, rel)
     orig = os.path.join(mcx.RULES, rel)
+    when, rec, other = parse_order(order)
+    check = "Prefs" if rec == "repoint" else "All"
     ops = [["fs_copy", orig, F], ["fs_mtime", D, T0]]        # start from the pristine file and epoch
     idx = {}
     def fault():
@@ -150,31 +164,59 @@ def scenario_ops(e, cfg, rel, kind, payload, order):
         return [["fs_write", F, payload], ["fs_mtime", F, t]]
     def repair():
         return [["fs_copy", orig, F], ["fs_mtime", F, e.tick()]]
-    def init():
-        return [["rules_dir", D]] + config_prefs(cfg)
-    if order == "after-load":
+    def init(c=cfg):
+        return [["rules_dir", D]] + config_prefs(c, check)
+    def recover():
+        if rec == "all":
+            return []
+        return init()
+    def mark(name, lst):
+        idx[name] = len(ops)
+        ops.extend(lst)
+    if when == "after-load":
         ops += init()
-        idx["base"] = len(ops)
-        ops += GETTERS
+        mark("base", GETTERS)
         ops += fault()
-        idx["faulted"] = len(ops)
-        ops += GETTERS
+        mark("faulted", GETTERS)
         ops += repair()
-        idx["reinit"] = len(ops)
+        mark("reinit", recover())
+        mark("recovered", GETTERS)
+    elif when == "before-load":
+        ops += fault()
+        mark("init", init())
+        mark("faulted", GETTERS)
+        ops += repair()
+        mark("reinit", recover())
+        mark("recovered", GETTERS)
+    elif when == "after-load-nocall":
         ops += init()
-        idx["recovered"] = len(ops)
-        ops += GETTERS
+        mark("base", GETTERS)
+        ops += fault()
+        ops += repair()
+        mark("reinit", recover())
+        mark("recovered", GETTERS)
+    elif when == "before-load-nocall":
+        ops += fault()
+        ops += repair()
+        mark("reinit", init())
+        mark("recovered", GETTERS)
+    elif when == "other":
+        # the fault is in a file that only configuration `other` reads; the session starts (and keeps returning to) `cfg`
+        ops += init()
+        mark("base", GETTERS)
+        ops += fault()
+        ops += config_prefs(other, check)
+        mark("faulted", GETTERS)
+        ops += config_prefs(cfg, check)
+        mark("bystander", GETTERS)
+        ops += repair()
+        mark("reinit", [["rules_dir", D]] if rec == "repoint" else [])
+        ops += config_prefs(other, check)
+        mark("recovered", GETTERS)
+        ops += config_prefs(cfg, check)
+        mark("recovered2", GETTERS)
     else:
-        ops += fault()
-        idx["init"] = len(ops)
-        ops += init()
-        idx["faulted"] = len(ops)
-        ops += GETTERS
-        ops += repair()
-        idx["reinit"] = len(ops)
-        ops += init()
-        idx["recovered"] = len(ops)
-        ops += GETTERS
+        raise ValueError(order)
     ops += [["fs_copy", orig, F], ["fs_mtime", F, T0]]
     return ops, idx
 
@@ -190,7 +232,8 @@ def names_file(msg, rel):
 
 
 def work(item):
-    cfg, baseline, scen = item
+    cfg, baselines, scen = item
+    baseline = baselines[cfg]
     mc = mcx.worker_mc()
     e = env()
     cases, meta = [], []
@@ -202,74 +245,103 @@ def work(item):
         meta.append((rel, klass, fname, kind, order, idx))
     _, res = mc.run_cases([], cases, fresh=True, keep_going=True, per_case_timeout=60.0)
     viol, counts, nontriv = [], {"evaluations": 0, "calls_under_fault": 0, "errors_naming_file": 0, "ok_unchanged": 0, "ok_changed_allowed": 0, "recovered": 0}, []
+    NG = len(GETTERS)
     for (rel, klass, fname, kind, order, idx), r in zip(meta, res):
         counts["evaluations"] += 1
+        when, rec, other = parse_order(order)
+        # class of the order for keys: the bystander configuration's name is not part of the class
+        oclass = (when if when != "other" else "other-config") + ("@" + rec if rec else "")
         replay = {"cfg": cfg, "file": rel, "class": klass, "fault": fname, "order": order, "scenario_index": None}
         sig = []
         fclass = {"deleted": "deleted", "empty": "unparsable", "scalar": "unparsable", "map": "unparsable", "not-yaml": "unparsable", "truncated-mid-entry": "unparsable",
                   "prefs-wrong-shape": "unparsable", "truncated-at-entry": "truncated-at-entry"}.get(fname, fname)
         def bad(k, what):
-            viol.append((f"C14|{k}|{klass}|{fclass}|{order}", f"[{cfg}] {rel} {fname} ({order}): {what}", replay))
+            viol.append((f"C14|{k}|{klass}|{fclass}|{oclass}", f"[{cfg}] {rel} {fname} ({order}): {what}", replay))
         for i, x in enumerate(r):
             if is_panic(x):
                 site = x[1] if x[0] == "p" else x[0]
                 viol.append((f"C14|panic|{site}|{klass}|{fname}", f"[{cfg}] {rel} {fname} ({order}): call #{i} panicked: {short(x, 160)}", replay))
-        base = [obs(x) for x in r[idx["base"]:idx["base"] + len(GETTERS)]] if "base" in idx else baseline
+        base = [obs(x) for x in r[idx["base"]:idx["base"] + NG]] if "base" in idx else baseline
         if "base" in idx and base != baseline:
             bad("baseline-differs", f"the fault-free results in this session differ from the fresh-session baseline: {short(base, 100)}")
             continue
-        under = r[idx["faulted"]:idx["faulted"] + len(GETTERS)]
-        no_expression = order == "before-load" and not is_ok(under[0])     # set_mathml itself was refused: nothing is stored
         init_failed = False
+        init_call_refused = False
         if "init" in idx:
             for x in r[idx["init"]:idx["faulted"]]:
                 if is_err(x) and names_file((x[2] if len(x) > 2 and x[2] else x[1]) or "", rel):
                     init_failed = True       # initialisation already reported the file; what follows runs on an uninitialised library
-        for nm, x, b_ in zip(GNAMES, under, base):
-            if is_err(x) and init_failed:
-                counts["after_failed_init"] = counts.get("after_failed_init", 0) + 1
-                sig.append("i")
-                continue
-            if no_expression and nm != "set_mathml" and is_err(x):
-                counts["no_expression_consequences"] = counts.get("no_expression_consequences", 0) + 1
-                sig.append("n")
-                continue
-            counts["calls_under_fault"] += 1
-            if is_panic(x):
-                sig.append("p")
-                continue
-            o = obs(x)
-            if is_err(x):
-                full = (x[2] if len(x) > 2 and x[2] else x[1]) or ""
-                if names_file(full, rel) or (kind == "delete" and "Languages" not in rel and names_file(full, os.path.dirname(rel) or rel)) \
-                        or (fname in SHAPE_PRESERVING and ".yaml" in full):
-                    counts["errors_naming_file"] += 1
-                    sig.append("E")
+                if not is_ok(x):
+                    init_call_refused = True
+
+        def judge_under_fault(under, ref, label, first_load):
+            no_expression = first_load and not is_ok(under[0])     # set_mathml itself was refused: nothing is stored
+            for nm, x, b_ in zip(GNAMES, under, ref):
+                if is_err(x) and init_failed:
+                    counts["after_failed_init"] = counts.get("after_failed_init", 0) + 1
+                    sig.append("i")
+                    continue
+                if no_expression and nm != "set_mathml" and is_err(x):
+                    counts["no_expression_consequences"] = counts.get("no_expression_consequences", 0) + 1
+                    sig.append("n")
+                    continue
+                counts["calls_under_fault"] += 1
+                if is_panic(x):
+                    sig.append("p")
+                    continue
+                o = obs(x)
+                if is_err(x):
+                    full = (x[2] if len(x) > 2 and x[2] else x[1]) or ""
+                    if names_file(full, rel) or (kind == "delete" and "Languages" not in rel and names_file(full, os.path.dirname(rel) or rel)) \
+                            or (fname in SHAPE_PRESERVING and ".yaml" in full):
+                        counts["errors_naming_file"] += 1
+                        sig.append("E")
+                    else:
+                        sig.append("e")
+                        bad(f"error-does-not-name-file|{label}{nm}", f"{label}{nm} failed without naming the file: {short(full.splitlines()[0] if full else '', 140)} … {short(full.splitlines()[-1] if full else '', 100)}")
+                elif o == b_:
+                    counts["ok_unchanged"] += 1
+                    sig.append("=")
+                elif fname in SHAPE_PRESERVING or kind == "delete":
+                    counts["ok_changed_allowed"] += 1     # a well-formed shorter file / a documented fallback file
+                    sig.append("~")
                 else:
-                    sig.append("e")
-                    bad(f"error-does-not-name-file|{nm}", f"{nm} failed without naming the file: {short(full.splitlines()[0] if full else '', 140)} … {short(full.splitlines()[-1] if full else '', 100)}")
-            elif o == b_:
-                counts["ok_unchanged"] += 1
-                sig.append("=")
-            elif fname in SHAPE_PRESERVING or kind == "delete":
-                counts["ok_changed_allowed"] += 1     # a well-formed shorter file / a documented fallback file
-                sig.append("~")
-            else:
-                sig.append("!")
-                bad(f"silently-different-output|{nm}", f"{nm} returned Ok with a different result under the fault: {short(o[1], 100)} (baseline {short(b_[1], 100)})")
-        rec = [obs(x) for x in r[idx["recovered"]:idx["recovered"] + len(GETTERS)]]
-        reinit = r[idx["reinit"]:idx["recovered"]]
-        for nm, x in zip(["set_rules_dir"] + [p[1] for p in config_prefs(cfg)], reinit):
+                    sig.append("!")
+                    bad(f"silently-different-output|{label}{nm}", f"{label}{nm} returned Ok with a different result under the fault: {short(o[1], 100)} (baseline {short(b_[1], 100)})")
+
+        if "faulted" in idx:
+            judge_under_fault(r[idx["faulted"]:idx["faulted"] + NG], baselines[other] if other else base, "", when == "before-load")
+        if "bystander" in idx:
+            # calls under the configuration that never reads the faulted file: same rule (an error must name the faulted file, an Ok must be unchanged)
+            judge_under_fault(r[idx["bystander"]:idx["bystander"] + NG], baseline, "bystander-configuration:", False)
+        reinit = r[idx["reinit"]:idx["recovered"]] if when != "other" else r[idx["reinit"]:idx["reinit"] + (1 if rec == "repoint" else 0)]
+        rnames = ["set_rules_dir"] + [p[1] for p in config_prefs(cfg)]
+        for nm, x in zip(rnames, reinit):
             if not is_ok(x) and not is_panic(x):
                 bad(f"reinit-fails|{nm}", f"after the repair, {nm} still fails: {short(x, 160)}")
                 break
-        if rec == baseline:
+        how = {"": "CheckRuleFiles=All and re-pointing the rules directory", "all": "CheckRuleFiles=All (nothing re-pointed)",
+               "repoint": "re-pointing the rules directory (CheckRuleFiles=Prefs)"}[rec]
+        ok_all = True
+        for key_, ref, label in (("recovered", baselines[other] if other else baseline, ""), ("recovered2", baseline, "bystander-configuration:")):
+            if key_ not in idx:
+                continue
+            got = r[idx[key_]:idx[key_] + NG]
+            recd = [obs(x) for x in got]
+            if recd != ref and rec == "all" and init_call_refused:
+                # set_rules_dir / set_preference itself was refused under the fault, so its effect never happened: file checking cannot
+                # redo a call the library rejected - the caller has to re-issue it (that is the re-pointing order, checked separately)
+                counts["refused_init_needs_reissue"] = counts.get("refused_init_needs_reissue", 0) + 1
+                ok_all = False
+                continue
+            if recd != ref:
+                ok_all = False
+                k = next((i for i, (a, b_) in enumerate(zip(recd, ref)) if a != b_), 0)
+                if not any(is_panic(x) for x in got):
+                    bad(f"not-recovered|{label}{GNAMES[k]}", f"after restoring the file (newer time stamp), {how}, {label}{GNAMES[k]} is {short(recd[k] if k < len(recd) else None, 120)}, baseline {short(ref[k], 100)}")
+        if ok_all:
             counts["recovered"] += 1
-        else:
-            k = next(i for i, (a, b_) in enumerate(zip(rec, baseline)) if a != b_)
-            if not any(is_panic(x) for x in r[idx["recovered"]:idx["recovered"] + len(GETTERS)]):
-                bad(f"not-recovered|{GNAMES[k]}", f"after restoring the file (newer time stamp), CheckRuleFiles=All and re-pointing the rules directory, {GNAMES[k]} is {short(rec[k], 120)}, baseline {short(baseline[k], 100)}")
-        nontriv.append(hash((cfg, klass, fname, order, "".join(sig))))
+        nontriv.append(hash((cfg, klass, fname, oclass, "".join(sig))))
     return viol, counts, nontriv
 
 
@@ -281,19 +353,46 @@ def compute_baseline(mc, cfg):
     return [obs(x) for x in r[-len(GETTERS):]]
 
 
+QUICK_FAULTS = ("deleted", "empty", "not-yaml", "truncated-at-entry", "bad-xpath", "wrong-type-definition", "prefs-wrong-shape")
+OTHER_PAIRS = {"quick": [("en/ClearSpeak/Nemeth", "es/SimpleSpeak/CMU"), ("es/SimpleSpeak/CMU", "en-gb/ClearSpeak/UEB")],
+               "thorough": [(a, b) for a in CONFIGS for b in CONFIGS if a != b]}
+
+
 def scenarios(tier):
     out = {}
+    first = "en/ClearSpeak/Nemeth"
     for cfg, (lang, style, code) in CONFIGS.items():
-        if tier == "quick" and cfg != "en/ClearSpeak/Nemeth":
+        if tier == "quick" and cfg != first:
             # the other configurations: only the files that differ from the first one
             files = [f for f in reachable_files(lang, style, code) if not f[0].startswith(("Intent/", "intent.yaml", "prefs.yaml", "definitions.yaml", "Braille/definitions"))]
         else:
             files = reachable_files(lang, style, code)
         sc = []
         for rel, klass in files:
+            seen_f = set()
             for fname, kind, payload in faults_for(rel, klass, tier):
                 for order in ("after-load", "before-load"):
                     sc.append((rel, klass, fname, kind, payload, order))
+                # either repair alone must do (file checking, or re-pointing), and a fault repaired before anybody looked must leave no trace
+                if tier == "thorough" or (cfg == first and fname in QUICK_FAULTS and fname not in seen_f):
+                    seen_f.add(fname)
+                    for order in ("after-load@all", "before-load@all", "after-load@repoint", "before-load@repoint", "after-load-nocall@all", "before-load-nocall"):
+                        sc.append((rel, klass, fname, kind, payload, order))
+        # faults in files only ANOTHER configuration reads, met by switching to it and back
+        mine = {f[0] for f in reachable_files(lang, style, code)}
+        for a, b_ in OTHER_PAIRS[tier]:
+            if a != cfg:
+                continue
+            for rel, klass in reachable_files(*CONFIGS[b_]):
+                if rel in mine:
+                    continue
+                seen_f = set()
+                for fname, kind, payload in faults_for(rel, klass, tier):
+                    if tier == "quick" and (fname not in QUICK_FAULTS or fname in seen_f):
+                        continue
+                    seen_f.add(fname)
+                    for recm in ("all", "repoint"):
+                        sc.append((rel, klass, fname, kind, payload, f"other:{b_}@{recm}"))
         out[cfg] = sc
     return out
 
@@ -310,16 +409,18 @@ def confirm(replay, verbose=False):
     try:
         cfg = replay["cfg"]
         baseline = compute_baseline(mc, cfg)
+        baselines = {c: (baseline if c == cfg else compute_baseline(mc, c)) for c in CONFIGS}
         if "dir_history" in replay:
             v, _, _ = work_dirs((cfg, baseline))
             if verbose:
                 for k, w, _ in v:
                     print(" ", k, "—", w)
             return {k for k, _, _ in v}
-        lang, style, code = CONFIGS[cfg]
+        _, _, other = parse_order(replay["order"])
+        lang, style, code = CONFIGS[other or cfg]
         sc = [(rel, klass, fname, kind, payload, order) for rel, klass in reachable_files(lang, style, code) if rel == replay["file"]
               for fname, kind, payload in faults_for(rel, klass, "thorough") if fname == replay["fault"] for order in (replay["order"],)]
-        v, _, _ = work((cfg, baseline, sc))
+        v, _, _ = work((cfg, baselines, sc))
     finally:
         mcx._worker_mc = old
         mc.close()
@@ -403,7 +504,7 @@ def main(tier):
     for cfg, lst in sc.items():
         run.count("scenarios_" + cfg, len(lst))
         for i in range(0, len(lst), 12):
-            jobs.append(("F", cfg, baselines[cfg], lst[i:i + 12]))
+            jobs.append(("F", cfg, baselines, lst[i:i + 12]))
     for cfg in CONFIGS:
         jobs.append(("D", cfg, baselines[cfg]))
     jobs = [j[1:] if j[0] == "F" else j for j in jobs]
